@@ -40,6 +40,10 @@ def configs(tier):
                     if tph:
                         kw["trusted_proxy_headers"] = tph
                     out.append(kw)
+        # scoped (link-local) IPv6 addresses: the zone index is part of the peer's identity
+        for tp, peer in (("fe80::1%eth0", "fe80::1%eth1"), ("fe80::1%eth0", "fe80::2%eth0"), ("fe80::1", "fe80::1:0"), ("2001:db8::1", "2001:db8::10")):
+            for tph in (["forwarded"], XF):
+                out.append(dict(trusted_proxy=tp, trusted_proxy_count=1, clear_untrusted_proxy_headers=clear, trusted_proxy_headers=tph, _peer=peer))
     return out
 
 
@@ -49,7 +53,8 @@ _envs = {}
 def get_env(ci, kw):
     e = _envs.get(ci)
     if e is None:
-        e = seq.Env(None, **kw)
+        e = seq.Env(None, **{k: v for k, v in kw.items() if not k.startswith("_")})
+        e.peer = (kw["_peer"], 4567, 0, 0) if "_peer" in kw else PEER
         _envs[ci] = e
     return e
 
@@ -73,7 +78,7 @@ def run(env, headers):
     env.app = app
     del env.escaped[:]
     del env.disp.worker_exc[:]
-    c = env.connect(peer=PEER)
+    c = env.connect(peer=env.peer)
     c.send(request(headers))
     wire = c.wire
     esc = list(env.escaped) + [repr(e) for e in env.disp.worker_exc]
@@ -143,7 +148,7 @@ def main(tier, only=None):
         "every assignment of values (well-formed, malformed, hostile) to subsets of the six proxy headers; two runs per case (with / without the headers), environ compared key by key; "
         "distinct_nontrivial = distinct (config, header subset, status) triples"
     )
-    r.assume("peer address 10.1.2.3; trusted_proxy='*' is excluded by the property", "real parser -> task -> middleware -> application path under the sequential driver")
+    r.assume("peer address 10.1.2.3 (IPv4 configurations) or a link-local / global IPv6 address that differs from the trusted one in zone index or digits; trusted_proxy='*' is excluded by the property", "real parser -> task -> middleware -> application path under the sequential driver")
     nparts = 4
     work = [(ci, kw, tier, p, nparts) for ci, kw in enumerate(cfgs) for p in range(nparts)]
     rnd.shuffle(work)
@@ -170,7 +175,7 @@ def main(tier, only=None):
 
 
 def replay(rep):
-    env = seq.Env(None, **rep["config"])
+    env = get_env(0, rep["config"])
     base, _, _ = run(env, [])
     got, wire, esc = run(env, [tuple(h) for h in rep["headers"]])
     print("without:", base)
